@@ -67,9 +67,9 @@ func run(c *vf.Ctx) {
 	c.Extra("git_invocations", gitx.Calls.Load())
 	c.Floor("round trips", c.Counter("roundtrips"), c.N(2500, 50000))
 	c.Floor("message types", c.SeenCount("message_types"), 14)
-	c.Floor("git ls-remote confirmations of advertisements", c.Counter("git_lsremote_confirmations"), c.N(75, 1200))
-	c.Floor("git receive-pack confirmations of update requests", c.Counter("git_receivepack_confirmations"), c.N(30, 450))
-	c.Floor("git upload-pack confirmations of upload requests", c.Counter("git_uploadpack_confirmations"), c.N(35, 500))
+	c.Floor("git ls-remote confirmations of advertisements", c.Counter("git_lsremote_confirmations"), c.N(50, 300))
+	c.Floor("git receive-pack confirmations of update requests", c.Counter("git_receivepack_confirmations"), c.N(18, 110))
+	c.Floor("git upload-pack confirmations of upload requests", c.Counter("git_uploadpack_confirmations"), c.N(25, 120))
 	c.Assume("equality is modulo what the encoders document: references, wants, haves and shallows are compared as sets (the encoders sort and deduplicate), capability order is insertion order")
 	c.Assume("well-formed values only: reference names valid per check-ref-format and without directory/file conflicts, capability values without spaces, no zero ids in wants/haves, ACK sequences as a server emits them (statused ACKs, optionally closed by a plain ACK of the last common object)")
 	c.Assume("advertisements served to git ls-remote carry at most the HEAD symref capability: git 2.39.5 spins forever in its own capability parsing on some advertisements with two symref= entries (reproduced with a hand-written advertisement, independent of go-git); multiple symrefs are still covered by the round-trip part")
